@@ -152,7 +152,7 @@ def check(rep):
     from gbigsmiles.bond import BondDescriptor
     from gbigsmiles.token import SmilesToken
 
-    coq = fw.coq_check("C01", ["SrcBond"])
+    coq = fw.coq_check("C01", ["SrcBond", "SrcDescr"])
     quick = rep.tier == "quick"
     rnd = random.Random(rep.seed + 1)
     evaluations = accepted = 0
